@@ -88,8 +88,24 @@ def _eval(case):
     if k == 'product':
         sw = case['fmt'] % (case['version'] + case['patch'])
         line = 'SSH-2.0-' + sw + (' ' + case['comments'] if case.get('comments') else '')
+        if case.get('dirty'):
+            # a byte outside printable ASCII somewhere in the comments: the line is flagged, the product is still the product
+            com = case.get('comments') or 'build'
+            pos = case['dirty'][0] % (len(com) + 1)
+            line = 'SSH-2.0-' + sw + ' ' + com[:pos] + case['dirty'][1] + com[pos:]
         b = Banner.parse(line)
         s = Software.parse(b) if b is not None else None
+        if case.get('cli'):
+            # the same through the whole program: '(gen) software:' names product and version
+            net = fakenet.FakeNet()
+            net.add('h', 22, fakenet.Server({'banner': line.encode('utf-8').decode('latin-1')}))
+            r = drive.run_cli(['-n', '--skip-rate-test', 'h'], net)
+            tr = report.TextReport(r.out)
+            shown = (tr.gen.get('software') or [None])[0]
+            if r.exc or r.code not in (0, 2, 3):
+                fails.append([drive.crash_sig(r) if r.exc else 'banner-not-recognised', r.brief()])
+            elif shown is None or case['version'] not in shown or case['product'].split(' ')[0] not in shown:
+                fails.append(['cli-software-line', '%r -> (gen) software: %r, expected %s %s' % (line, shown, case['product'], case['version'])])
         if s is None:
             fails.append(['product-not-recognised', repr(line)])
         else:
@@ -101,7 +117,7 @@ def _eval(case):
             if case['patch'] and case['product'] in ('OpenSSH', 'Dropbear SSH', 'libssh', 'RomSShell'):
                 if (s.patch or '') != case['patch'].lstrip('-_.'):
                     fails.append(['product-patch', '%r -> patch %r, expected %r' % (line, s.patch, case['patch'])])
-        return mkres(case, nt=True, classes=['product', case['product']], fails=fails)
+        return mkres(case, nt=True, classes=['product', case['product']] + (['dirty-comments'] if case.get('dirty') else []) + (['cli'] if case.get('cli') else []), fails=fails)
     if k == 'cli':
         header = case['header']
         line = case['line']
@@ -203,15 +219,21 @@ def strat_parse():
 def strat_product():
     ver = st.lists(st.integers(0, 2024), min_size=2, max_size=3).map(lambda l: '.'.join(map(str, l)))
     def build(t):
-        (fmt, product), v, patch, com = t
+        (fmt, product), v, patch, com, dirty, cli = t
         if product in ('TinySSH', 'PuTTY', 'iLO (Integrated Lights-Out) sshd', 'IOS/PIX sshd'):
             patch = ''
         if product == 'OpenSSH':
             patch = patch if patch in ('', 'p1', 'p2') else ''
         elif patch in ('p1', 'p2'):
             patch = ''
-        return {'kind': 'product', 'fmt': fmt, 'product': product, 'version': v, 'patch': patch, 'comments': com}
-    return st.tuples(st.sampled_from(FAMILIES), ver, st.sampled_from(['', '', 'p1', 'p2', 'test1', '-beta', '_rc2']), st.one_of(st.none(), st.sampled_from(['Debian-5', 'FreeBSD-20200214', 'Ubuntu-3ubuntu0.1', 'NetBSD_Secure_Shell-20110907']))).map(build)
+        c = {'kind': 'product', 'fmt': fmt, 'product': product, 'version': v, 'patch': patch, 'comments': com}
+        if dirty is not None:
+            c['dirty'] = list(dirty)
+        if cli:
+            c['cli'] = True
+        return c
+    return st.tuples(st.sampled_from(FAMILIES), ver, st.sampled_from(['', '', 'p1', 'p2', 'test1', '-beta', '_rc2']), st.one_of(st.none(), st.sampled_from(['Debian-5', 'FreeBSD-20200214', 'Ubuntu-3ubuntu0.1', 'NetBSD_Secure_Shell-20110907'])),
+                     st.one_of(st.none(), st.none(), st.tuples(st.integers(0, 30), st.sampled_from(['\x01', '\x7f', '\x1b', '\xe9', '\u2028', '\x00', '\ufffd']))), st.sampled_from([False, False, False, True])).map(build)
 
 
 def strat_cli():
@@ -249,6 +271,13 @@ def run(ctx):
         for eol in ('\r\n', '\n'):
             grid.append({'kind': 'cli', 'line': 'SSH-2.0-OpenSSH_8.9p1 Ubuntu-3ubuntu0.1', 'header': ['Welcome to host', '* authorised use only *'], 'eol': eol, 'segment': seg})
             grid.append({'kind': 'cli', 'line': 'SSH-1.99-dropbear_2020.81', 'header': [], 'eol': eol, 'segment': seg})
+    # very long lines: header text and comments of several kilobytes, whole and in segments
+    for n in (1000, 4095, 4096, 4097, 8192, 12000) if not q else (4095, 4097, 12000):
+        for seg in (0, 64, 1460):
+            grid.append({'kind': 'cli', 'line': 'SSH-2.0-OpenSSH_8.9p1 Ubuntu-3ubuntu0.1', 'header': ['*' * n], 'eol': '\r\n', 'segment': seg})
+            grid.append({'kind': 'cli', 'line': 'SSH-2.0-OpenSSH_8.9p1 Ubuntu-3ubuntu0.1', 'header': ['notice', 'x' * n + ' end', 'SSH is monitored'], 'eol': '\n', 'segment': seg})
+            grid.append({'kind': 'cli', 'line': 'SSH-2.0-Server_1.0 ' + 'c' * n, 'header': [], 'eol': '\r\n', 'segment': seg})
+            grid.append({'kind': 'cli', 'line': 'SSH-2.0-' + 's' * n, 'header': ['hello'], 'eol': '\n', 'segment': seg})
     ctx.map(grid)
     if not q:
         from vlib import fuzzrun
